@@ -7,13 +7,19 @@
 (* exactly what was pushed".  A wrong output is accepted only as the open    *)
 (* deviation of the new compressor.  `bigbuilt` events are outputs beyond    *)
 (* TLC's size cap (they cross the 16384-octet pointer limit): the two        *)
-(* readers' verdicts are taken as recorded.                                  *)
+(* readers' verdicts are taken as recorded.  `plain` events are messages      *)
+(* with a name of 250 .. 259 octets (random label partition and octets) or   *)
+(* character strings of up to 255 in a random place - question, owner, the   *)
+(* RDATA of every type that carries a name, completed by a pointer or not -  *)
+(* read by every route of both codecs, with and without decompression: TLC   *)
+(* computes the referee's view (Wire!CodecView, Wire!PlainView) and requires *)
+(* both codecs to have reported exactly that wherever the referee decides.   *)
 EXTENDS Naturals, Sequences, TLC, Json, IOUtils
 
 Rec == ndJsonDeserialize(IOEnv.TRACE)
 AllDevs == {"D_new_compressor_revname_rest", "D_new_compressor_ptr_overflow",
             "D_new_builder_failed_push_compressor", "D_new_builder_truncate_counts",
-            "D_new_compressor_partial_match_children"}
+            "D_new_compressor_partial_match_children", "D_new_ptr_rule"}
 OpenDevs == {d \in AllDevs : d \in DOMAIN IOEnv}
 \* deviations under which the new builder writes a name that reads back
 \* wrong; the second one only for scripts whose names can trigger it (two
@@ -117,7 +123,36 @@ T_Trunc ==
   /\ used' = IF \E i \in 1..Len(Rec[l].steps) : Rec[l].steps[i].op = "trunc" /\ Rec[l].steps[i].counts # Zero4
              THEN used \cup {"D_new_builder_truncate_counts"} ELSE used
 
-TNext == T_Built \/ T_Big \/ T_Fill \/ T_FillPanic \/ T_Trunc
+\* a recorded verdict against the referee's: equal, unless the referee
+\* leaves the RDATA open
+ItemAgrees(s, o) == s.und \/ o = s
+MsgAgrees(s, o) ==
+  IF s.end = "und" THEN Len(o.items) >= Len(s.items) /\ SubSeq(o.items, 1, Len(s.items)) = s.items
+  ELSE o = s
+ViewAgrees(v, o) ==
+  /\ o.names = v.names /\ o.qs = v.qs /\ o.edns = v.edns
+  /\ Len(o.rs) = Len(v.rs)
+  /\ \A i \in 1..Len(v.rs) : ItemAgrees(v.rs[i], o.rs[i])
+  /\ MsgAgrees(v.msg, o.msg)
+PlainAgrees(pv, o) ==
+  /\ Len(o) = Len(pv)
+  /\ \A i \in 1..Len(pv) :
+        /\ o[i].n = pv[i].n /\ o[i].sk = pv[i].sk /\ o[i].q = pv[i].q
+        /\ ItemAgrees(pv[i].rn, o[i].rn) /\ ItemAgrees(pv[i].ro, o[i].ro)
+PlainOk(e) ==
+  LET v == W!CodecView(FALSE, e.m, e.starts)
+      pv == W!PlainView(e.m, e.probes)
+  IN /\ ViewAgrees(v, e.old)
+     /\ PlainAgrees(pv, e.plain)
+     /\ \/ ViewAgrees(v, e.new)
+        \/ "D_new_ptr_rule" \in OpenDevs /\ ViewAgrees(W!CodecView(TRUE, e.m, e.starts), e.new)
+T_Plain ==
+  /\ IsEv("plain")
+  /\ (IF PlainOk(Rec[l]) THEN TRUE ELSE FALSE)
+  /\ used' = IF ViewAgrees(W!CodecView(FALSE, Rec[l].m, Rec[l].starts), Rec[l].new) THEN used
+             ELSE used \cup {"D_new_ptr_rule"}
+
+TNext == T_Built \/ T_Big \/ T_Fill \/ T_FillPanic \/ T_Trunc \/ T_Plain
 TSpec == TInit /\ [][TNext]_tvars
 
 Accepted ==
